@@ -436,7 +436,7 @@ def run_boundary(cfgname):
                                                "what": f"{BOUNDARY_WHAT[tag]}: expected `{e}`, but the process running the real code died there (exit {p.returncode}: {p.stderr[-200:].strip()})", "no_shrink": True})
                     break
                 if g != e and not res.get("crashed"):
-                    res["oracle_hits"].append({"property": "C08" if (tag == "B8" and g and "dup_of_first=1" in g) else "C12", "seq": "boundary", "line": 0, "op": "rt boundary", "class": "boundary-" + tag,
+                    res["oracle_hits"].append({"property": "C08" if (tag in ("B5", "B8") and g and "dup_of_first=1" in g) else "C12", "seq": "boundary", "line": 0, "op": "rt boundary", "class": "boundary-" + tag,
                                                "what": f"{BOUNDARY_WHAT[tag]}: expected `{e}`, observed `{g}`", "no_shrink": True})
             res["wall_s"] = round(time.time() - t0, 2)
         json.dump(res, open(jf, "w"))
